@@ -161,7 +161,8 @@ def run(ctx):
         ('quaternion_eigendecomposition', lambda a: eigen.quaternion_eigendecomposition(*a), [Hm]), ('tridiagonalize', lambda a: tri.tridiagonalize(*a), [Hm]), ('hessenbergize', lambda a: hessenberg.hessenbergize(*a), [S]),
         ('quaternion_schur', lambda a: schur.quaternion_schur(a[0], max_iter=5), [S]), ('quaternion_schur_pure', lambda a: schur.quaternion_schur_pure(a[0], max_iter=5), [S]),
         ('quaternion_schur_pure_implicit', lambda a: schur.quaternion_schur_pure_implicit(a[0], max_iter=5), [S]), ('quaternion_schur_unified', lambda a: schur.quaternion_schur_unified(a[0], variant='aed', max_iter=5), [S]),
-        ('quaternion_schur_experimental', lambda a: schur.quaternion_schur_experimental(a[0], max_iter=5), [S]),
+        ('quaternion_schur_unified[ds]', lambda a: schur.quaternion_schur_unified(a[0], variant='ds', max_iter=5), [S]), ('quaternion_schur_unified[hermitian,aed]', lambda a: schur.quaternion_schur_unified(a[0], variant='aed', max_iter=8), [Hm]),
+        ('quaternion_schur_experimental', lambda a: schur.quaternion_schur_experimental(a[0], max_iter=5), [S]), ('quaternion_schur_experimental[francis_ds]', lambda a: schur.quaternion_schur_experimental(a[0], variant='francis_ds', max_iter=5), [S]),
         ('Hess_QR_ggivens', lambda a: utils.Hess_QR_ggivens(*a), [np.vstack([np.triu(rs.rand(4, 3), -1) for _ in range(4)])]), ('UtriangleQsparse', lambda a: utils.UtriangleQsparse(*a), Rt + bt),
         ('tensor_unfold', lambda a: tensor.tensor_unfold(a[0], 1), [T3]), ('tensor_fold', lambda a: tensor.tensor_fold(a[0], 1, (2, 3, 4)), [tensor.tensor_unfold(T3, 1)]),
         ('apply_blur_fft', lambda a: qslst.apply_blur_fft(*a), [img, psf]), ('qslst_restore_fft', lambda a: qslst.qslst_restore_fft(a[0], a[1], 0.1), [img, psf]), ('qslst_restore_matrix', lambda a: qslst.qslst_restore_matrix(a[0], a[1], 0.1), [rs.rand(2, 3, 4), rs.rand(6, 6)]),
